@@ -310,6 +310,9 @@ type resolveObs struct {
 	Cacheable bool          `json:"cacheable"`
 	CacheKey  string        `json:"cache_key"`
 	Networks  []string      `json:"networks"`
+	// what the generated messages contain, read back by the independent summariser
+	SrcCluster interface{}   `json:"src_cluster"`
+	SrcEDS     []interface{} `json:"src_eds"`
 }
 
 func runResolve(raw json.RawMessage) (interface{}, error) {
@@ -318,6 +321,7 @@ func runResolve(raw json.RawMessage) (interface{}, error) {
 		return nil, err
 	}
 	o := resolveObs{ID: c.ID, Cluster: C("GErr")}
+	sctx := newSummCtx()
 	fm := newFakeManager()
 	if c.FaultCl != "" {
 		fm.set(xdsresource.ClusterType, c.Desc, nil, faultErr(c.FaultCl))
@@ -330,6 +334,7 @@ func runResolve(raw json.RawMessage) (interface{}, error) {
 		if err != nil {
 			return nil, err
 		}
+		o.SrcCluster = sctx.summarise("cds", a)
 		res, err := xdsresource.UnmarshalCDS([]*anypb.Any{a})
 		if err != nil || len(res) != 1 {
 			o.DecodeErr = true
@@ -351,6 +356,7 @@ func runResolve(raw json.RawMessage) (interface{}, error) {
 			return nil, err
 		}
 		anys = append(anys, a)
+		o.SrcEDS = append(o.SrcEDS, sctx.summarise("eds", a))
 	}
 	eds, err := xdsresource.UnmarshalEDS(anys)
 	if err != nil {
